@@ -153,7 +153,7 @@ class Unit:
             elif d == "end":
                 pass
             elif d == "fn":
-                mm = re.match(r"(<\w+ as [\w<>, ]+?>::\w+|\S+)(?:\s*->\s*(\w+))?\s*$", arg)
+                mm = re.match(r"(<\w+ as [\w<>, ()]+?>::\w+|\S+)(?:\s*->\s*(\w+))?\s*$", arg)
                 curfn = FnSpec(mm.group(1))
                 curfn.ret = mm.group(2)
                 curfn.props = list(self._defprops)
@@ -449,7 +449,16 @@ class Source:
     def find_fn(self, qual):
         """qual: `free_fn`, `Type::method`, `Type::method::nested`, `Trait for Type::method`.
         Returns (item, impl_item_or_None)."""
-        parts = qual.split("::")
+        if qual.startswith("<"):
+            # `<Type as Trait<..>>::method[::nested]`: split after the matching `>`
+            depth = 0
+            for i, ch in enumerate(qual):
+                depth += (ch == "<") - (ch == ">")
+                if depth == 0:
+                    break
+            parts = [qual[:i + 1]] + [x for x in qual[i + 1:].split("::") if x]
+        else:
+            parts = qual.split("::")
         cands = []
         if len(parts) == 1:
             for it in self.items:
@@ -458,7 +467,7 @@ class Source:
         else:
             ty, meth = parts[0], parts[1]
             trait = None
-            m = re.match(r"<(\w+) as ([\w<>]+)>", ty)
+            m = re.match(r"<(\w+) as ([\w<>, ()]+)>$", ty)
             if m:
                 ty, trait = m.group(1), m.group(2)
             for imp in self.items:
@@ -878,7 +887,7 @@ def build(unit, repo_root, source_map=None):
             if isinstance(it, tuple):
                 _, q, f = it
                 ty = q.split("::")[0]
-                mt = re.match(r"<(\w+) as ([\w<>]+)>", q)
+                mt = re.match(r"<(\w+) as ([\w<>, ()]+)>::", q)
                 spec = unit.fns.get(q)
                 if mt and spec is not None and spec.inherent:
                     ty = mt.group(1)
